@@ -197,7 +197,21 @@ def judge (calls : List Call) (final : List String) (check : String) : List (Str
     for m in ms do
       if published[m.off]? != some m then out := out ++ [("Content", s!"final scan offset {m.off}")]
   | _ => out := out ++ [("FinalScanFails", String.intercalate " " final)]
-  if check ≠ "ok" then out := out ++ [("FinalCheck", check)]
+  -- Check compares the index files with the indexes derived from the logs; their timestamp column is only
+  -- claimed equal when message times never decrease with offset (C11; the writer carries its running maximum
+  -- across rollovers and deletes, a derivation starts every segment afresh). Publishers that race to the writer
+  -- lock can invert the order of their times: then an `index corrupted` verdict is not held against the log.
+  let monoTimes := Id.run do
+    let mut last : Int := -1
+    let mut okm := true
+    for i in List.range maxNext.toNat do
+      match published[(i : Int)]? with
+      | some m =>
+        if m.time < last then okm := false
+        last := m.time
+      | none => pure ()
+    return okm
+  if check ≠ "ok" ∧ (monoTimes ∨ check ≠ "check-indexcorrupt") then out := out ++ [("FinalCheck", check)]
   return out
 
 end DFree
